@@ -385,6 +385,33 @@ fn pre_state_fresh() -> Step {
     Step { ctx, bal: Balance::default(), acc, cx, cy, a: Decimal::ZERO, b: Decimal::ZERO }
 }
 
+/// Pre-state of a concrete SHAPE with symbolic non-zero values, built without passing through the zero-entry
+/// removal of the Balance API (whose data-dependent `retain` is what makes the arbitrary pre-state of
+/// `pre_state()` expensive: 900 s / 14 GB against 150-300 s here). SHAPE 1: A holds a X; 2: A holds a X and
+/// b Y; 3: A holds b Y only. Together with the fresh account these are all the states the representation
+/// invariant (no stored zero) allows for one account over {X, Y}.
+fn pre_state_shaped<const SHAPE: u8>() -> Step {
+    let a = dec16(0);
+    let b = dec16(0);
+    vk::assume(!a.is_zero() && !b.is_zero());
+    let mut ctx = new_ctx();
+    let acc = ctx.accounts.ensure("A");
+    let cx = ctx.commodities.ensure("X");
+    let cy = ctx.commodities.ensure("Y");
+    let amount = match SHAPE {
+        1 => Amount::from_values([(a, cx)]),
+        2 => Amount::from_values([(a, cx), (b, cy)]),
+        _ => Amount::from_values([(b, cy)]),
+    };
+    let bal: Balance<'static> = [(acc, amount)].into_iter().collect();
+    let (a, b) = match SHAPE {
+        1 => (a, Decimal::ZERO),
+        2 => (a, b),
+        _ => (Decimal::ZERO, b),
+    };
+    Step { ctx, bal, acc, cx, cy, a, b }
+}
+
 fn check_assertion_on(mut st: Step, kind: AssertKind) -> (bool, bool) {
     // v at scale 2 and an optional declared precision of 1 for X: the assertion must be exact, not "equal
     // after rounding to the commodity's display precision"
@@ -447,6 +474,9 @@ fn check_assertion_on(mut st: Step, kind: AssertKind) -> (bool, bool) {
 vk_proof_models! { unwind 6; fn c02_assert_same_commodity() { let o = check_assertion(AssertKind::SameCommodity); vk_cover!(o.0, "assertion holds"); vk_cover!(o.1, "assertion fails"); } }
 vk_proof_models! { unwind 6; fn c02_assert_other_commodity() { let o = check_assertion(AssertKind::OtherCommodity); vk_cover!(o.0, "assertion holds"); vk_cover!(o.1, "assertion fails"); } }
 vk_proof_models! { unwind 6; fn c02_assert_fresh_account() { let o = check_assertion_on(pre_state_fresh(), AssertKind::SameCommodity); vk_cover!(o.0, "assertion holds"); vk_cover!(o.1, "assertion fails"); } }
+vk_proof_models! { unwind 6; fn c02_step_two_same() { let o = check_assertion_on(pre_state_shaped::<2>(), AssertKind::SameCommodity); vk_cover!(o.0, "assertion holds"); vk_cover!(o.1, "assertion fails"); } }
+vk_proof_models! { unwind 6; fn c02_step_two_other() { let o = check_assertion_on(pre_state_shaped::<2>(), AssertKind::OtherCommodity); vk_cover!(o.0, "assertion holds"); vk_cover!(o.1, "assertion fails"); } }
+vk_proof_models! { unwind 6; fn c02_step_one_bare_zero() { let o = check_assertion_on(pre_state_shaped::<1>(), AssertKind::BareZero); vk_cover!(o.0, "assertion holds"); vk_cover!(o.1, "assertion fails"); } }
 vk_proof_models! { unwind 6; fn c02_assert_bare_zero() { let o = check_assertion(AssertKind::BareZero); vk_cover!(o.0, "assertion holds"); vk_cover!(o.1, "assertion fails"); } }
 
 /// C03-H3/H4: `A  = e X` and `A  = 0` without an amount.
@@ -708,6 +738,9 @@ fn verif_replay_entry() {
         ("c02_kernel_bare_zero", c02_kernel_bare_zero as fn()),
         ("c03_deduce_kernel", c03_deduce_kernel as fn()),
         ("c02_assert_fresh_account", c02_assert_fresh_account as fn()),
+        ("c02_step_two_same", c02_step_two_same as fn()),
+        ("c02_step_two_other", c02_step_two_other as fn()),
+        ("c02_step_one_bare_zero", c02_step_one_bare_zero as fn()),
         ("c12_declare_account", c12_declare_account as fn()),
         ("c12_declare_commodity", c12_declare_commodity as fn()),
         ("c03_assign_commodity", c03_assign_commodity as fn()),
